@@ -566,6 +566,12 @@ def report(pid, tier):
     kinds, ccodes = KINDS[pid], CODES[pid]
     nontriv, evals, corr_ok, corr_all = set(), 0, 0, 0
     dist = {}
+    allbad, kid_found = {}, {}
+    for c in cases:
+        o = outs[c["id"]]
+        if "error" not in o:
+            allbad[c["id"]] = py_checks(c, o) + trace_checks(c, o)
+            kid_found.setdefault(c["kid"], set()).update(b[0] for b in allbad[c["id"]] if b[0] in kinds)
     for c in cases:
         o = outs[c["id"]]
         evals += 1
@@ -577,7 +583,7 @@ def report(pid, tier):
         if o["iiter"] >= 1 and np.any(o["x"]):
             nontriv.add((c["kid"], c["niter"], c["tol"]))
         cs = set(codes.get(c["id"], [])) if c.get("coq") else set()
-        bad = py_checks(c, o) + trace_checks(c, o)
+        bad = allbad[c["id"]]
         found = set()
         for kind, detail in bad:
             if kind not in kinds:
@@ -589,7 +595,7 @@ def report(pid, tier):
             corr = cs & CORR_CODES & ccodes
             if not corr:
                 corr_ok += 1
-            elif not found:
+            elif not kid_found.get(c["kid"]):
                 R.violation("correspondence with the Coq model broken (%s) and no input violating the property itself was found [%s]"
                             % ("; ".join(CODE_TXT[k] for k in sorted(corr)), describe(c)),
                             dict(replay_dict(c, "correspondence", sorted(corr)), broken="Corr.CheckC09 codes %s" % sorted(corr)), no_input=True)
@@ -604,10 +610,7 @@ def report(pid, tier):
             ncert += 1
         for code_ in sorted(cs & ccodes):
             c = next(c for c in cases if c["kid"] == kid)
-            o = outs[c["id"]]
-            full = next((r for r in cases if r["kid"] == kid and r["niter"] >= r["Aop"].shape[1] and r["tol"] <= TOL0), c)
-            hit = [b for b in py_checks(full, outs[full["id"]]) if b[0] in ("minimiser", "monotone")]
-            if hit and hit[0][0] in kinds:
+            if kid_found.get(kid):
                 continue      # already reported above with a concrete input
             R.violation("model-level check failed: %s [%s]" % (CODE_TXT[code_], describe(c)),
                         dict(replay_dict(c, "model-code-%d" % code_, CODE_TXT[code_])), no_input=True)
